@@ -155,13 +155,15 @@ class Translator:
         return r
 
     def _cospi(self, q):
-        """cos(pi q), 0<q<1/2, via the Chebyshev chain on cos(pi/M) with M = denominator of q (per denominator)."""
+        """cos(pi q), 0<q<1/2, on ONE Chebyshev chain c_k = cos(k pi/M): c_k = 2 c_1 c_{k-1} - c_{k-2}, c_M = -1, c_1 enclosed to 1e-15.
+        M is the lcm of all denominators seen; when it grows the old chain is tied to the new one."""
         v = self.cospis.get(q)
         if v is not None:
             return v
-        M = q.denominator
-        base = self.cospis.get(("chain", M))
-        if base is None:
+        import math
+        M_old = self.cospis.get("M")
+        M = q.denominator if M_old is None else M_old * q.denominator // math.gcd(M_old, q.denominator)
+        if M != M_old:
             import mpmath
             c = [z3.RealVal(1), z3.Real(f"cospi_1_{M}")]
             ax = self.axioms
@@ -175,9 +177,16 @@ class Translator:
                 lo = Fraction(int(mpmath.floor(approx * 10 ** 15)) - 1, 10 ** 15)
                 hi = Fraction(int(mpmath.floor(approx * 10 ** 15)) + 2, 10 ** 15)
             ax += [c[1] > _rv(lo), c[1] < _rv(hi)]
-            base = c
-            self.cospis[("chain", M)] = base
-        v = base[q.numerator]
+            if M_old is not None:
+                old = self.cospis["chain"]
+                f = M // M_old
+                for k in range(1, M_old + 1):
+                    ax.append(old[k] == c[k * f])
+            self.cospis["M"] = M
+            self.cospis["chain"] = c
+            self._side_cache = None
+        c = self.cospis["chain"]
+        v = c[q.numerator * (M // q.denominator)]
         self.cospis[q] = v
         return v
 
@@ -203,7 +212,7 @@ class Translator:
         if self._side_cache is not None:
             return self._side_cache
         out = list(self.axioms) + [d != 0 for d in self.dens]
-        mono = ("exp", "tanh", "sinh", "log", "arcsinh", "erf", "arctan", "root2", "root3", "root4", "root5", "root6")
+        mono = ("exp", "tanh", "sinh", "log", "arcsinh", "erf", "arctan", "arcsin", "root2", "root3", "root4", "root5", "root6")
         for name, lst in self.atoms.items():
             if len(lst) > 14:
                 pairs = []        # too many: rely on syntactic congruence only
@@ -235,6 +244,29 @@ class Translator:
                 out.append(d["tanh"] * d["cosh"] == d["sinh"])
             if "sin" in d and "cos" in d:
                 out.append(d["sin"] * d["sin"] + d["cos"] * d["cos"] == 1)
+        # exp atoms with proportional arguments a1 == (p/q) * a2:  v1**q == v2**p
+        el = self.atoms.get("exp", [])
+        if len(el) <= 12:
+            for (v1, _, _, a1), (v2, _, _, a2) in itertools.combinations(el, 2):
+                r = _ratio(a1, a2)
+                if r is not None and 0 < abs(r.numerator) <= 12 and r.denominator <= 12:
+                    pnum, qden = r.numerator, r.denominator
+                    if pnum > 0:
+                        out.append(self._p(v1, qden) == self._p(v2, pnum))
+                    else:
+                        out.append(self._p(v1, qden) * self._p(v2, -pnum) == 1)
+        # tanh(t) and exp(2t):  tanh * (E + 1) == E - 1
+        exps = {a.id: v for (v, p, q, a) in self.atoms.get("exp", [])}
+        for (v, p, q, a) in self.atoms.get("tanh", []):
+            E = exps.get(dag.scale(Fraction(2), a).id)
+            if E is not None:
+                out.append(v * (E + 1) == E - 1)
+            e1 = exps.get(a.id)
+            if e1 is not None:
+                out.append(v * (e1 * e1 + 1) == e1 * e1 - 1)
+        for (v, p, q, a) in self.atoms.get("arcsin", []):
+            s_ = p * q if not _is1(q) else p
+            out += [z3.Implies(s_ > 0, v > 0), z3.Implies(s_ < 0, v < 0), z3.Implies(s_ == 0, v == 0)]
         for key, lst in self.ufs.items():
             for (v1, a1, _), (v2, a2, _) in itertools.combinations(lst, 2):
                 eqs = [self._m(p1, q2) == self._m(p2, q1) for (p1, q1), (p2, q2) in zip(a1, a2)]
@@ -271,6 +303,26 @@ class Translator:
         if tag == "z3":
             return f[1]
         raise NotImplementedError(tag)
+
+
+def _ratio(a1, a2):
+    """rational r with a1 == r * a2 (as DAG nodes), else None."""
+    def lead(a):
+        if a.op == "add" and dag.cis0(a.args[0]):
+            return a.args[1][0][1]
+        if a.op in ("const",):
+            return None
+        return Fraction(1)
+    c1, c2 = lead(a1), lead(a2)
+    if c1 is None or c2 is None:
+        return None
+    try:
+        r = dag.cmul(c1, dag.cinv(c2))
+    except ZeroDivisionError:
+        return None
+    if isinstance(r, QS):
+        return None
+    return r if dag.scale(r, a2) is a1 else None
 
 
 # ----------------------------------------------------------------------------- solving
